@@ -74,6 +74,7 @@ Section Proofs.
   Notation chain := (chain pymodule pyclass pydeser import_module getattr_ is_type issubclass_ser get_deserializer).
   Notation resolve := (resolve pymodule pyclass pydeser import_module getattr_ is_type issubclass_ser get_deserializer implements_from_json).
   Notation K_abstract := (K_abstract pymodule pyclass pydeser import_module getattr_ is_type issubclass_ser get_deserializer implements_from_json).
+  Notation K_abstract_registered := (K_abstract_registered pymodule pyclass pydeser import_module getattr_ is_type issubclass_ser get_deserializer implements_from_json).
 
   Hypothesis Himp : importer_documented pymodule import_module.
   Hypothesis Hattr : getattr_documented pymodule pyclass getattr_.
@@ -154,10 +155,10 @@ Section Proofs.
     - rewrite chain_obj. destruct (chain_spec (tag_of d)); discriminate.
   Qed.
 
-  (* whole resolution, outside the abstract-class defect: exactly the Spec *)
-  Lemma resolve_obj d : K_abstract (JObj d) = false -> resolve (JObj d) = outcome_of (full_spec (tag_of d)).
+  (* whole resolution = exactly the Spec's table, except where an abstract serialiser class is also registered *)
+  Lemma resolve_obj d : K_abstract_registered (JObj d) = false -> resolve (JObj d) = outcome_of (full_spec (tag_of d)).
   Proof.
-    unfold K_abstract, resolve. fold chain. rewrite chain_obj.
+    unfold K_abstract_registered, resolve. fold chain. rewrite chain_obj.
     unfold chain_spec, full_spec, resolve_spec.
     destruct (tag_of d) as [t|]; [|reflexivity].
     destruct (falsy t); [reflexivity|].
@@ -169,17 +170,38 @@ Section Proofs.
     destruct (negb (is_type c)); [reflexivity|].
     unfold view_deserialisable.
     destruct (view_subclass pyclass issubclass_ser c); simpl.
-    - intros H. apply negb_false_iff in H. rewrite H. reflexivity.
+    - destruct (implements_from_json c); simpl; [reflexivity|].
+      destruct (get_deserializer c); simpl; [discriminate|]. intros _. reflexivity.
     - intros _. destruct (get_deserializer c); reflexivity.
   Qed.
 
   Definition documented_outcome (o : outcome jerr (fj_action pyclass pydeser)) : Prop :=
     match o with RaiseF _ => False | _ => True end.
 
-  Lemma resolve_only_documented data : K_abstract data = false -> documented_outcome (resolve data).
+  (* the whole resolution never lets a foreign exception escape -- unconditional since the inherited _from_json raises a
+     JSONSerializationError subclass (this proof inspects the translated [base_from_json_body]) *)
+  Lemma resolve_no_escape data e : resolve data <> RaiseF e.
   Proof.
-    destruct data as [| | | | |l|d]; try (intros _; exact I).
-    intros HK. rewrite (resolve_obj d HK). destruct (full_spec (tag_of d)); exact I.
+    unfold resolve. fold chain. pose proof (chain_no_escape data) as Hc.
+    destruct (chain data) as [a|j|e']; [|discriminate|exfalso; exact (Hc e' eq_refl)].
+    destruct a as [| |c|f]; try discriminate.
+    destruct (implements_from_json c); [discriminate|].
+    unfold base_from_json_body. discriminate.
+  Qed.
+
+  Lemma resolve_only_documented data : documented_outcome (resolve data).
+  Proof.
+    pose proof (resolve_no_escape data) as H. destruct (resolve data) as [a|j|e]; try exact I.
+    exact (H e eq_refl).
+  Qed.
+
+  (* a tag naming a serialiser class without _from_json gets ClassNotDeserializableError *)
+  Lemma resolve_abstract data : K_abstract data = true -> resolve data = RaiseJ ClassNotDeserializableError.
+  Proof.
+    unfold K_abstract, resolve. fold chain.
+    destruct (chain data) as [a|j|e']; try discriminate.
+    destruct a as [| |c|f]; try discriminate.
+    intros H. apply negb_true_iff in H. rewrite H. reflexivity.
   Qed.
 
   (* never a wrongly typed object: a class is only ever handed the document when the tag names it *)
@@ -211,18 +233,17 @@ Section Proofs.
   Qed.
 End Proofs.
 
-(* ---- the defect class is inhabited: the base class itself (or any subclass without _from_json) *)
+(* ---- regression example for the former finding C19-b: the base class itself (or any subclass without _from_json) *)
 Definition w_import (s : str) : M Z := if str_eqb s [107] then Ok 1 else Exn ModuleNotFoundError.   (* module "k" *)
 Definition w_getattr (m : Z) (n : str) : M Z := if str_eqb n [83] then Ok 2 else Exn AttributeError.  (* attribute "S" *)
 Definition w_data : jv := JObj [(JSON_TYPE_NAME, JStr [107; 46; 83])].                               (* tag "k.S" *)
 
-Lemma abstract_base_escapes :
-  exists (import_module : str -> M Z) (getattr_ : Z -> str -> M Z) (is_type : Z -> bool) (issubclass_ser : Z -> M bool)
-         (get_deserializer : Z -> option Z) (implements : Z -> bool) (data : jv),
-    importer_documented Z import_module /\ getattr_documented Z Z getattr_ /\ issubclass_documented Z is_type issubclass_ser /\
-    resolve Z Z Z import_module getattr_ is_type issubclass_ser get_deserializer implements data = RaiseF NotImplementedError.
+Lemma abstract_base_documented :
+  importer_documented Z w_import /\ getattr_documented Z Z w_getattr /\
+  issubclass_documented Z (fun _ => true) (fun _ => Ok true) /\
+  resolve Z Z Z w_import w_getattr (fun _ => true) (fun _ => Ok true) (fun _ => None) (fun _ => false) w_data
+  = RaiseJ ClassNotDeserializableError.
 Proof.
-  exists w_import, w_getattr, (fun _ => true), (fun _ => Ok true), (fun _ => None), (fun _ => false), w_data.
   repeat split.
   - intros s e. unfold w_import. destruct (str_eqb s [107]); [discriminate|]. intros H. left. congruence.
   - intros m n e. unfold w_getattr. destruct (str_eqb n [83]); [discriminate|]. congruence.
@@ -230,18 +251,27 @@ Proof.
   - intros c _. exists true. reflexivity.
 Qed.
 
+(* the residual corner: an abstract serialiser class that is also registered -- code: ClassNotDeserializableError
+   (documented), Spec's table: the registered deserialiser *)
+Lemma abstract_registered_divergence :
+  let res := resolve Z Z Z w_import w_getattr (fun _ => true) (fun _ => Ok true) (fun _ => Some 9) (fun _ => false) w_data in
+  let spec := full_spec Z Z Z w_import w_getattr (fun _ => true) (fun _ => Ok true) (fun _ => Some 9) (fun _ => false) (tag_of [(JSON_TYPE_NAME, JStr [107; 46; 83])]) in
+  res = RaiseJ ClassNotDeserializableError /\ spec = RByRegistry 2 9 /\
+  K_abstract_registered Z Z Z w_import w_getattr (fun _ => true) (fun _ => Ok true) (fun _ => Some 9) (fun _ => false) w_data = true.
+Proof. repeat split. Qed.
+
 (* ---- the correspondence instance is the model / the Spec *)
 Lemma model_rcase_unfold c :
   model_rcase c = outcome_sx (resolve Z Z Z (rc_import c) (rc_getattr c) (memz (rc_types c)) (rc_issub c)
                                 (assoc_z (rc_regs c)) (memz (rc_impl c)) (rc_data c)).
 Proof. reflexivity. Qed.
 
-(* for cases whose oracle tables are documented behaviours, model = spec outside the abstract class *)
+(* for cases whose oracle tables are documented behaviours, model = spec (outside abstract-and-registered) *)
 Lemma model_rcase_eq_spec c :
   importer_documented Z (rc_import c) -> getattr_documented Z Z (rc_getattr c) ->
   issubclass_documented Z (memz (rc_types c)) (rc_issub c) ->
   (rc_has_tag c = false -> dict_get (rc_extra c) JSON_TYPE_NAME = None) ->
-  K_abstract Z Z Z (rc_import c) (rc_getattr c) (memz (rc_types c)) (rc_issub c) (assoc_z (rc_regs c)) (memz (rc_impl c)) (rc_data c) = false ->
+  K_abstract_registered Z Z Z (rc_import c) (rc_getattr c) (memz (rc_types c)) (rc_issub c) (assoc_z (rc_regs c)) (memz (rc_impl c)) (rc_data c) = false ->
   model_rcase c = spec_rcase c.
 Proof.
   intros Hi Ha Hs Hx HK. unfold model_rcase, spec_rcase.
